@@ -11,7 +11,7 @@ from .. import gens
 from ..harness import digest, quiet
 
 MANIFEST = {
-    'text': 'Held on every call executed: emd.cycles.kdt_match is run on seeded feature sets (1-4 features, 1-200 rows each, arbitrary row order, continuous and integer-valued with exact ties, 1-d and 2-d inputs) x K = 1..15 (including K larger than the candidate set) x distance bounds {inf, moderate, tight}; the returned pairing is checked for equal lengths, injectivity on both sides, index range, brute-force K-nearest-neighbour membership and the distance bound, and rows with an uncontested strictly-nearest neighbour must be present. Sampling, not proof.',
+    'text': 'Held on every call executed: emd.cycles.kdt_match is run on seeded feature sets (1-4 features, 1-200 rows each, arbitrary row order, continuous and integer-valued with exact ties, 1-d and 2-d inputs) x K = 1..15 (including K larger than the candidate set) x distance bounds {inf, moderate, tight}; the returned pairing is checked for equal lengths, injectivity on both sides, index range, brute-force K-nearest-neighbour membership and the distance bound, and rows with an uncontested strictly-nearest neighbour must be present. Sampling, not proof. Schedules: the same deterministic calls made from 4-5 threads of one interpreter at once (thread switch every 1-10 microseconds) must reproduce the results obtained alone. A quarter of the shards run in a session that turns Deprecation/Future/UserWarnings into errors.',
     'note': 'Trusted: numpy (brute-force distances). The KD-tree itself is scipy\'s.',
     'technique': 'runtime post-condition monitor on the real kdt_match with brute-force distance oracle, seeded random workload',
 }
